@@ -448,7 +448,7 @@ def run(ctx):
             if zero:
                 raise tlc.TLCError(f"{c}: actions never taken: {sorted(zero)}")
     _t(ctx, "models")
-    recs, expected = [], {}
+    recs = []
     # 2./3. venn
     for name in (f"venn2_{tier}", f"venn3_{tier}"):
         cases = export(ctx, name)
